@@ -18,9 +18,9 @@ func (c Chooser) Intn(label string, n int) int {
 	return rapid.IntRange(0, n-1).Draw(c.T, label)
 }
 
-var keywords = []string{"a", "b", "leaf", "container", "pattern", "pattern", "description", "p:ext", "x:y:z", "kéy", "+", "/x", "a+b", "k-1.2", "*", "世", "k\uFFFDy", "\U0001D11E"}
+var keywords = []string{"a", "b", "leaf", "container", "pattern", "pattern", "description", "p:ext", "x:y:z", "kéy", "+", "/x", "a+b", "k-1.2", "*", "世", "k\uFFFDy", "\U0001D11E", "\u2028k", "\fk", "k\u00A0", "\u0085"}
 
-var argRunes = []rune{'a', 'b', 'z', '0', ' ', ' ', '\t', '\n', '\n', '"', '\'', '\\', ';', '{', '}', '/', '*', '+', 'é', '世', 'n', 't', '\r', '-', ':', '\uFFFD', '\U0001D11E'}
+var argRunes = []rune{'a', 'b', 'z', '0', ' ', ' ', '\t', '\n', '\n', '"', '\'', '\\', ';', '{', '}', '/', '*', '+', 'é', '世', 'n', 't', '\r', '-', ':', '\uFFFD', '\U0001D11E', '\f', '\v', '\u0085', '\u00A0', '\u2028', '\u3000'}
 
 func genArg(t *rapid.T) string {
 	switch rapid.IntRange(0, 9).Draw(t, "arg-shape") {
@@ -87,7 +87,7 @@ func Render(t *rapid.T, f []*rfc6.Node) string {
 	return p.String()
 }
 
-var mutRunes = []rune{'a', ' ', '\n', '\t', '\r', ';', '{', '}', '"', '\'', '\\', '+', '/', '*', 'n', 'é', '\uFFFD'}
+var mutRunes = []rune{'a', ' ', '\n', '\t', '\r', ';', '{', '}', '"', '\'', '\\', '+', '/', '*', 'n', 'é', '\uFFFD', '\f', '\v', '\u00A0', '\u2028'}
 
 // Mutate applies one character-level mutation.
 func Mutate(t *rapid.T, text string) string {
